@@ -26,6 +26,36 @@ CHECKS = {
  "C11": ("exploration", "streaming monitor on a scripted reader (prefix-writer length sampled at every Read entry = every potential blocking point; no Read after the dump-ending line) with a read-ahead positive control + causal pipe-level monitor on the pp binary",
          "At every point where the source could block, the bytes already forwarded are compared with the complete non-dump lines delivered so far; the call must return before the next Read once the line ending a dump was delivered. End to end the pp binary is fed piece by piece through pipes with a causal (not temporal) classification. Held on the schedules explored.",
          "A Read call is the only blocking point of a source; e2e waits are watchdogs only.", "4/C11"),
+ "C04": ("exploration", "set-arithmetic monitor on bucket id lists over an exhaustive multiset/permutation enumeration of a signature universe + large random snapshots + parsed generated dumps",
+         "Every aggregation (4 levels) of every multiset of <= 3 goroutines (all arrival orders for pairs and a third of the triples), of 4-multisets of a smaller universe, of large repetitive snapshots and of parsed dumps is checked: ids non-empty, ascending, disjoint, union == snapshot, exactly the bucket holding goroutine 0 flagged first, back-reference to the snapshot. Exhaustive over the bounded universe.",
+         "Goroutine ids unique per snapshot.", "4/C04"),
+ "C05": ("exploration", "reference-partition monitor: buckets vs classes of an independently written canonical key per level; refinement chain; order independence over all permutations; equivalence laws of the real relation (hook) on all triples, merged keys included",
+         "Same case list as C04. The partition produced by the real Aggregate must equal the partition induced by a canonical key computed from exported fields only, refine the next coarser level and be invariant under permutation; the real similar() is checked to be an equivalence on all triples of the universe and merge() to preserve the class.",
+         "IsInaccurate and the parent id inside 'created by f in goroutine N' are not varied (not stated by the property).", "4/C05"),
+ "C12": ("exploration", "member-vs-signature monitor: every bucket's signature walked position-wise against all its members, all arrival orders",
+         "Same case list as C04. For each bucket: state/creator/frames equal to every member's, an argument is '*' iff it differs between members, unchanged otherwise, sleep range == min/max, locked == OR.",
+         "Arguments compared as (value, pointer-ness, '_').", "4/C12"),
+ "C13": ("exploration", "strict-weak-order law checker on the real comparator (hook) over all triples of a signature universe + black-box linear-extension monitor on aggregated snapshots",
+         "All triples of a universe of ~600 (quick) / ~1100 (thorough) signatures are checked for irreflexivity, asymmetry, transitivity and transitivity of incomparability; the stated consequence (user code before all-stdlib) on all pairs; aggregated snapshots must present buckets in an order that is a linear extension of the comparator with the First bucket first.",
+         "The comparator observed through the hook is the one Aggregate sorts with (the black-box part ties them).", "4/C13"),
+ "C06": ("exploration", "repetition monitor: same bytes/options/files executed R times in one process (with unrelated calls in between) and in fresh pp processes; deep comparison of snapshot, ordered buckets, merged signatures, HTML (time masked), console bytes",
+         "Each repetition samples new outcomes of Go's randomised map iteration; inputs are built so that buckets tie under the ordering and so that GOPATH/module roots overlap. Held on the repetitions executed (a rare iteration order can be missed).",
+         "Map iteration order is the only schedule inside the library; R = 30/200 in-process, 10/40 processes.", "4/C06"),
+ "C14": ("exploration", "pristine-twin monitor (deep equality after every Aggregate/ToHTML call) + Go race detector on a concurrent driver sharing snapshots and options, results compared with the sequential ones, racy canary as positive control",
+         "Sequential histories of aggregations/renderings must leave the snapshot deep-equal to a twin parsed from the same bytes; N goroutines operate on shared snapshots and a shared *Opts under -race at GOMAXPROCS 2/4/16. Race detection is per execution: held on the interleavings that occurred.",
+         "The race detector only sees races that occur in the run; canary proves it is live.", "4/C14"),
+ "C15": ("exploration", "labelling-law monitor over parsed generated dumps with pointer pools (forced recurrence), naming on vs off",
+         "The laws of the statement are checked literally on every parsed snapshot; naming off must give no names and nothing else may change.",
+         "Single-occurrence pointers of the first goroutine may or may not be named (not stated).", "4/C15"),
+ "C16": ("exploration", "pp stdout block parser vs library buckets: header pieces, per-frame line equation with global column offsets, colour-strip metamorphic relation, filter/match three-way split",
+         "The real pp binary renders generated dumps and race reports under the flag matrix; completeness, order, alignment (rune offsets), elision marker, colour independence and filter/match complementarity are checked on its stdout.",
+         "Bucket membership/order come from the library (decided by C04/C05/C13).", "4/C16"),
+ "C17": ("exploration", "HTML5 tokenizer monitor (vendored x/net/html) with template-derived tag/attribute whitelist, href rules, unique markers in every string field, structural counts",
+         "Hostile snapshots (payload + marker in every string field) and hostile dumps are rendered by the real ToHTML and tokenized: nothing outside the template's vocabulary, no script/handler/comment, fixed link schemes, markers only as character data or in hrefs and all present, counts equal to the input's.",
+         "The tokenizer stands for the browser; Location values restricted to the declared enum.", "4/C17"),
+ "C18": ("exploration", "generated file-system layouts with ground truth (which local file/root/class each remote frame corresponds to) vs the fields ScanSnapshot fills with GuessPaths, decoy frames included",
+         "Layouts are created on disk under .work, a dump referencing them through renamed remote roots is parsed with GuessPaths, and every frame's LocalSrcPath/RelSrcPath/ImportPath/Location plus the detected roots are compared with the generator's table.",
+         "Relative paths unique across roots by construction; priority questions (nested modules) are exercised in C06.", "4/C18"),
  "C01": ("exploration", "generated dumps vs abstract ground truth (field-by-field oracle) + live-runtime registry vs runtime.Callers",
          "Every dump printed by a model of the runtime's traceback printer (all 864 format-variant combinations, all symbol/file/argument shapes, lines > 16 KiB) is parsed by the real ScanSnapshot and compared field by field with the abstract dump it was printed from; live rounds compare the running process's own dump with a registry built from runtime.Callers. Held-on-what-was-explored; the input space is unbounded.",
          "Trusts the generator's reading of runtime/traceback.go and of the linker's PathToPrefix escaping; 64-bit host.", "4/C01"),
